@@ -165,6 +165,37 @@ func execDep(vec J, out *Writer) {
 		kept := recv
 		recv.UnmarshalControl("zzz (>= 9) | yyy [sparc] <!cross>, xxx:any, www, ${v:Depends}")
 		rec["kept_after"] = J{"ok": kerr == nil, "ast": depJ(&kept)}
+		// two parses of one text are two values: editing everything reachable from the first (qualifiers, architecture
+		// lists, names) leaves the second as it was
+		a1, e1 := dependency.Parse(text)
+		a2, e2 := dependency.Parse(text)
+		if e1 == nil && e2 == nil && a1 != nil && a2 != nil {
+			for i := range a1.Relations {
+				for j := range a1.Relations[i].Possibilities {
+					po := &a1.Relations[i].Possibilities[j]
+					po.Name = "edited"
+					if po.Arch != nil {
+						po.Arch.ABI, po.Arch.OS, po.Arch.CPU = "e", "d", "it"
+					}
+					if po.Architectures != nil {
+						for k := range po.Architectures.Architectures {
+							po.Architectures.Architectures[k].CPU = "edited"
+						}
+					}
+					if po.Version != nil {
+						po.Version.Number = "0edited"
+					}
+					for k := range po.StageSets {
+						for l := range po.StageSets[k].Stages {
+							po.StageSets[k].Stages[l].Name = "edited"
+						}
+					}
+				}
+			}
+			rec["independent"] = J{"ok": true, "ast": depJ(a2)}
+		} else {
+			rec["independent"] = J{"ok": false, "ast": depJ(nil)}
+		}
 		if p.ok && p.dep != nil {
 			r := p.dep.String()
 			mc, _ := p.dep.MarshalControl()
